@@ -6,6 +6,7 @@ import (
 	"fmt"
 	"io"
 	"strings"
+	"time"
 
 	"github.com/wkhere/bcl"
 )
@@ -87,8 +88,20 @@ type loadObs struct {
 	Redump string `json:"redump,omitempty"`
 }
 
-// loadAndRun: LoadProg under a delivery pattern, disassembly, execution, second dump — everything observable of a loaded program
+// loadAndRun: LoadProg under a delivery pattern, disassembly, execution, second dump — everything observable of a loaded program.
+// The load runs under a watchdog: a loader that never comes back is reported (its goroutine cannot be stopped and is left behind).
 func loadAndRun(dump []byte, pat []int, name string) (o loadObs) {
+	done := make(chan loadObs, 1)
+	go func() { done <- loadAndRun1(dump, pat, name) }()
+	select {
+	case o = <-done:
+		return o
+	case <-time.After(10 * time.Second):
+		return loadObs{Panic: "no answer within 10 s: the loader hangs", Site: "hang"}
+	}
+}
+
+func loadAndRun1(dump []byte, pat []int, name string) (o loadObs) {
 	defer func() {
 		if r := recover(); r != nil {
 			o.Panic, o.Site = fmt.Sprint(r), panicSite()
